@@ -238,14 +238,12 @@ def python_side(ctx, L):
     f = m.func('field_to_string')
     src = unparse(f.node)
     consts = [n.value for n in ast.walk(f.node) if isinstance(n, ast.Constant) and isinstance(n.value, str)]
-    L.check(inn("single_indent_level = ' ' * 2", src), 'C18.python-format', 'field_to_string|indent', f.site(),
-            'indentation is two spaces per level', '')
     # every way out of field_to_string, classified by what is known about the type on that path (not by the shape of the ladder)
     FT = ['name', 'type_', 'value']
     tests = {'array': 'issubclass(type_, base_array)', 'composite': 'issubclass(type_, (struct, union))', 'bytes': 'issubclass(type_, bytes)',
              'enum': 'issubclass(type_, enum)'}
     bodies = {'array': "''.join((field_to_string(name, type_._TYPE, elem) for elem in value))",
-              'composite': "'%s {\\n%s}\\n' % (name, indent(str(value)))",
+              'composite': "'%s {\\n%s}\\n' % (name, '\\n'.join((x and ' ' * 2 + x or '' for x in str(value).split('\\n'))))",
               'bytes': "'%s: %s\\n' % (name, repr_bytes(value))",
               'enum': "'%s: %s\\n' % (name, type_._int_to_name[value])",
               'scalar': "'%s: %s\\n' % (name, value)"}
@@ -267,9 +265,13 @@ def python_side(ctx, L):
                 'known there %s' % sorted(known), ws(unparse(r)))
     L.check(sorted(seen) == sorted(bodies), 'C18.python-format', 'field_to_string|ladder', f.site(),
             'every kind of field (array, composite, bytes, enum, scalar) has exactly its own rendering; found %s' % sorted(seen), '')
-    ind = m.func('field_to_string.indent')
-    L.check(unparse(ind.node.body[0]) == "return '\\n'.join((x and single_indent_level + x or '' for x in text.split('\\n')))",
-            'C18.python-format', 'field_to_string.indent', ind.site(), 'every non-empty nested line gets one more level', '')
+    # the indentation of nested text (a helper in the source, folded into the composite rendering in normal form): every
+    # non-empty line gets two more spaces, empty lines stay empty
+    comp_r = [r for r in rets if 'composite' in [k for k, v in seen.items() if r in v]]
+    ok = len(comp_r) == 1 and P.sem_is(f, comp_r[0].value,
+                                       "'%s {\\n%s}\\n' % (name, '\\n'.join((x and ' ' * 2 + x or '' for x in str(value).split('\\n'))))", FT)
+    L.check(ok, 'C18.python-format', 'field_to_string.indent', f.site(comp_r[0] if comp_r else None),
+            'every non-empty nested line gets one more level of two spaces', ws(unparse(comp_r[0])) if comp_r else '')
     six = ctx.py.mod('prophy.six')
     rb = six.func('repr_bytes')
     L.check(unparse(rb.node.body[0]) == 'return repr(x)[1:]', 'C18.python-format', 'repr_bytes', rb.site(),
